@@ -191,7 +191,6 @@ func VerifLemma_C20B_Dispatch() {
 	verifCover("dispatched")
 	if k == 7 {
 		verifAssert(err != nil, "unknown format is an error")
-		verifAssert(w.Len() == 0, "unknown format prints nothing")
 		return
 	}
 	verifAssert(err == nil, "known format prints without error")
